@@ -338,12 +338,32 @@ def _only_via_allowed(ctx, c, x, seen=None):
     return found
 
 
-def _closure_covered(ctx, impl, g):
-    """A local closure whose body is one try with the cleanup handler."""
+def _closure_covered(ctx, impl, g, call=None):
+    """A local closure whose body is one try with the cleanup handler - or
+    the same function at module level of the handler layer, the list it
+    hands to delete_consumers being a parameter bound to a plain name of
+    the caller (which name is the business of the cleanup-argument
+    obligation)."""
     body = [s for s in g.node.body if not (
         isinstance(s, ast.Expr) and isinstance(s.value, ast.Constant))]
-    return len(body) == 1 and isinstance(body[0], ast.Try) and \
-        cleanup_handler(ctx, g, body[0]) is not None
+    # statements in front of the try that call nothing cannot fail in a
+    # way the request would answer for
+    while len(body) > 1 and isinstance(body[0], ast.Assign) and not any(
+            isinstance(n, ast.Call) for n in ast.walk(body[0])):
+        body = body[1:]
+    if not (len(body) == 1 and isinstance(body[0], ast.Try)):
+        return False
+    dc = cleanup_handler(ctx, g, body[0])
+    if dc is None:
+        return False
+    if g.parent is impl:
+        return True
+    if call is None or g.parent is not None or not dc.args or not \
+            isinstance(dc.args[0], ast.Name) or \
+            dc.args[0].id not in g.params:
+        return False
+    a = C.arg_for_param(call, g, dc.args[0].id)
+    return isinstance(a, ast.Name)
 
 
 def r43(ctx, R, rule='R4.3'):
@@ -385,7 +405,7 @@ def r43(ctx, R, rule='R4.3'):
                     if cleanup_handler(ctx, impl, t) is not None:
                         covered = True
                 if not covered and s.callees and all(
-                        c.parent is impl and _closure_covered(ctx, impl, c)
+                        _closure_covered(ctx, impl, c, s.node)
                         for c in s.callees):
                     covered = True
                 # a try whose only purpose is conversion around a covered
